@@ -71,6 +71,9 @@ URLISH = ["My%20Notes.txt", "a%41b", "100%", "50%off", "x y", "c#d", "q?x",
           "ü%C3%BC", "é", "%", "p%2Fq"]
 
 
+_HELPER_SUFFIXES = (".BASE", ".THIS", ".OTHER")
+
+
 def _odd(path):
     base = path.rsplit("/", 1)[-1]
     return any(c in base for c in "%#? ") or any(ord(c) > 127 for c in base)
@@ -131,6 +134,8 @@ def _draw_script(draw, model, ids, tag, n_min, n_max, symlinks, flat=False):
         if op[0] in ("add", "rename"):
             kind = op[4] if op[0] == "add" else model[op[1]]["kind"]
             parent, name = (op[2], op[3])
+            if kind == "directory" and name.endswith(_HELPER_SUFFIXES):
+                continue
             pp = tm.path_of(model, parent)
             target = (pp + "/" + name) if pp else name
             if kind != "directory" and target in was_dir:
@@ -165,6 +170,10 @@ def _base(draw, ids, symlinks, flat=False):
         if op is None:
             continue
         if flat and op[4] == "directory":
+            continue
+        if op[4] == "directory" and op[3].endswith(_HELPER_SUFFIXES):
+            # a merge conflict on <x> writes the helper file <x>.BASE over it:
+            # a versioned directory replaced by a file (trusted-base assertion)
             continue
         if op[4] == "file":
             k = draw(st.integers(4, 7))
@@ -740,9 +749,23 @@ def run(case, env):
             "added-file" if lost["base"] is None else "modified-file")
         sig = "C12/%s-loses-%s-content" % (
             label.replace("merge-noforce", "merge"), kind)
-        if lost.get("rm_unknown"):
+        basis_paths = set(tm.paths(base_model))
+        if cmd in ("remove", "remove-twice") and not case.get("force") and (
+                lost.get("rm_unknown") or (not lost["versioned"] and
+                                           lost["path"] in basis_paths)):
+            # open finding: the path is versioned in the basis (its entry was
+            # removed or moved away), the file on it is unversioned
             sig = ("C12/remove-deletes-unversioned-file-on-path-whose-removal-"
                    "is-pending")
+        if fmt == "git" and incoming_model is not None:
+            new_in = set(tm.paths(incoming_model)) - basis_paths
+            if lost["path"] in new_in:
+                # open findings (git trees only; bzr moves the local file to
+                # <path>.moved)
+                sig = ("C12/git-merge-overwrites-unversioned-file-with-"
+                       "incoming-file" if not lost["versioned"] else
+                       "C12/git-merge-overwrites-uncommitted-renamed-or-added-"
+                       "file-with-incoming-file-at-same-path")
         check(False, sig,
             {"case": case, "path": lost["path"],
              "content": content.decode("latin-1"),
